@@ -25,6 +25,7 @@ modification), are assumptions about the operating system (`FS`).
 -/
 import EtkVerif.Asm.IngestLemmas
 import EtkVerif.Asm.IngestTraced
+import EtkVerif.Asm.IngestNonInterf
 namespace EtkVerif.C18
 open Asm
 
@@ -108,5 +109,20 @@ theorem C18_traced_agrees_preprocess (fs : FS) (cwd : PathC) (fuel : Nat) (prog 
   ⟨fun ops tr' h => preprocessT_of_ok fs cwd fuel prog src tr ops tr' h,
    fun e h => preprocessT_of_error fs cwd fuel prog src tr e h,
    preprocessT_fst fs cwd fuel prog src tr⟩
+
+/-- C18 as NON-INTERFERENCE: two file systems with the same directory structure (`canon`, `isDir`) that hold the same
+text in the top-level file and in every file under the top-level file's root give the SAME result of `ingest_file` —
+bytes or error — and the same trace, whatever the files OUTSIDE the root contain.  So no content from outside the root
+can reach the output; unlike the trace theorems this does not rely on the model reporting its own reads (a read made
+without an event would still be a dependence, and the theorem would be false). -/
+theorem C18_noninterference (fs fs' : FS) (cwd : PathC) (rnd : Nat → Nat) (fuel : Nat) (path : PathC)
+    (h : AgreeOn fs fs' (InsideTop fs cwd path)) :
+    ingestFile fs' cwd rnd fuel path = ingestFile fs cwd rnd fuel path ∧
+    Traced.ingestFileT fs' cwd rnd fuel path = Traced.ingestFileT fs cwd rnd fuel path :=
+  ⟨ingestFile_noninterference fs fs' cwd rnd fuel path h, ingestFileT_noninterference fs fs' cwd rnd fuel path h⟩
+
+/-- non-vacuity: `/proj/main.etk` importing `lib.etk`, and `/secret.etk` outside `/proj` with ARBITRARY different
+contents `s1`, `s2`: the two trees agree on everything inside the top-level root -/
+example (s1 s2 : List Nat) := NonInterfExample.agree s1 s2
 
 end EtkVerif.C18
